@@ -36,6 +36,66 @@ def rule_coverage(chk, fb):
         exc = {f for (a, f) in KEY_EXCEPTIONS if a == adt}
         missing = sorted(fields - read - exc)
         chk.ob(ra, "%s::%s" % (adt.split("::")[-1], d.split("::")[-1]), not missing, where=fb.loc(d), detail="%d fields, read %d, exceptions %s, missing %s" % (len(fields), len(read & fields), sorted(exc), missing))
+    # every field contributes whatever the other fields hold
+    rc = chk.rule(
+        "C05.a.always",
+        "each field contributes to the key unconditionally: in every content-key function, every field is read on some site that is not guarded by a condition over OTHER fields of the struct (a field may of course be tested for its own presence)",
+        floor=35,
+    )
+    for d, adt in key_functions(fb):
+        b = fb.mir[d]
+        fl = Flow(fb, b)
+        cfg = CFG(b)
+        exc = {f for (a, f) in KEY_EXCEPTIONS if a == adt}
+        sites = {}
+        for bi, bl in enumerate(b["blocks"]):
+            places = []
+            for st in bl["s"]:
+                if st["k"] == "assign":
+                    from e2 import _places_of_rv
+
+                    places += _places_of_rv(st["rv"])
+            t = bl["t"]
+            if t["k"] == "call":
+                places += [a["p"] for a in t.get("args", []) if "p" in a]
+            elif t["k"] == "switch" and "p" in t["op"]:
+                places.append(t["op"]["p"])
+            for p_ in places:
+                for e in p_.get("pr", []):
+                    if isinstance(e, dict) and e.get("of") == adt and "f" in e:
+                        sites.setdefault(e["f"], set()).add(bi)
+        for f, blocks in sorted(sites.items()):
+            if f in exc:
+                continue
+            free = False
+            why = []
+            for bi in sorted(blocks):
+                others = set()
+                for x in cfg.control_deps_transitive(bi):
+                    tt = b["blocks"][x]["t"]
+                    if tt["k"] != "switch":
+                        continue
+                    others |= {a[2] for a in fl.atoms(tt["op"]) if a[0] == "field" and a[1] == adt and a[2] != f}
+                if not others:
+                    free = True
+                    break
+                why.append(sorted(others))
+            chk.ob(rc, "%s::%s:%s" % (adt.split("::")[-1], d.split("::")[-1], f), free, where=fb.loc(d),
+                   detail="read unconditionally" if free else "every read of `%s` is guarded by a condition over %s: two values that differ only in `%s` get the same key whenever that condition is false" % (f, why[0] if why else "?", f))
+    # no lossy rendering inside a key
+    rl = chk.rule(
+        "C05.b.lossless",
+        "key components are rendered without loss: no placeholder of a format template inside a content-key function carries a precision (`{:.2}` truncates numbers and strings, so distinct values share a key)",
+        floor=16,
+    )
+    for d, adt in key_functions(fb):
+        h = fb.hir.get(d)
+        if not h:
+            continue
+        specs = hirq.format_specs(h["body"])
+        bad = [ln for o, ln in specs if o is None or (o & 4)]
+        chk.ob(rl, "%s::%s" % (adt.split("::")[-1], d.split("::")[-1]), not bad, where="%s:%s" % (h["file"], bad[0] if bad else h.get("line", "")),
+               detail="%d placeholder(s), with a precision: %d" % (len(specs), len(bad)))
     # which key function does each interning table use? (role: compared inside the scan loop of set_style)
     rb = chk.rule("C05.a.use", "each interning table compares with the full key: the scan loop of every component table's set_style compares the key function of the element type on both operands; the whole-style lookup compares Style values whose equality is derived over all fields", floor=5)
     for d, b in sorted(fb.mir.items()):
@@ -44,12 +104,12 @@ def rule_coverage(chk, fb):
         adt = b["self_ty"]
         fl = Flow(fb, b)
         cfg = CFG(b)
-        loops = set()
-        for tail, head in cfg.back_edges():
-            loops |= cfg.natural_loop(tail, head)
-        keys_in_loop = sorted({t["fn"] for bi, t in fl.calls() if bi in loops and t.get("fn", "").split("::")[-1].startswith("get_hash_")})
+        from props.C04 import scan_scopes
+
+        _, loops, scan_calls = scan_scopes(fb, d, b, fl, cfg)
+        keys_in_loop = sorted({t["fn"] for t in scan_calls if t.get("fn", "").split("::")[-1].startswith("get_hash_")})
         keys_out = sorted({t["fn"] for bi, t in fl.calls() if bi not in loops and t.get("fn", "").split("::")[-1].startswith("get_hash_")})
-        eqs = [t for bi, t in fl.calls() if bi in loops and t.get("orig", t.get("fn", "")).endswith("PartialEq::eq") or (bi in loops and "PartialEq" in t.get("fn", "") and t["fn"].endswith("::eq"))]
+        eqs = [t for t in scan_calls if t.get("orig", t.get("fn", "")).endswith("PartialEq::eq") or ("PartialEq" in t.get("fn", "") and t["fn"].endswith("::eq"))]
         chk.touch(d)
         if adt == STYLESHEET:
             derived = fb.has_derive(STYLE, "std::cmp::PartialEq")
@@ -437,11 +497,44 @@ def rule_loop_emits(chk, fb):
                detail="some path through the %s loop skips %s::write_to; the deciding conditions read %s but write_to persists also %s" % (short.lower(), short, sorted(have), miss))
 
 
+def rule_skip_test(chk, fb):
+    """A cell without a value is written only if its style is not `empty`: that test has to look at everything the
+    stylesheet would persist for the style."""
+    from e2 import direct_fields
+
+    r = chk.rule(
+        "C05.g",
+        "the skip test sees the whole style: every Style field that interning a style into the stylesheet reads is also read by the emptiness test the cell writer uses to drop value-less cells",
+        floor=1,
+    )
+    CELL = "structs::cell::Cell"
+    w = fb.mir.get(CELL + "::write_to")
+    if not w:
+        chk.ob(r, "anchor", False, detail="Cell::write_to not found")
+        return
+    preds = sorted({t["fn"] for _, t in fb.calls_in(w) if fb.mir.get(t.get("fn", ""), {}).get("self_ty") == STYLE and fb.ty(fb.mir[t["fn"]]["locals"][0]["t"]) == "bool"})
+    persisted = set()
+    roots = [d for d in fb.mir if d == STYLESHEET + "::set_style"]
+    for d in fb.reachable_from(roots):
+        b = fb.mir.get(d)
+        if b and (b.get("self_ty") or "").startswith("structs::") and b.get("self_ty") != STYLE:
+            persisted |= direct_fields(b, STYLE)
+        elif b and b.get("self_ty") == STYLE and d.split("::")[-1].startswith("get_") :
+            persisted |= direct_fields(b, STYLE) if any(c in fb.reachable_from(roots) for c in [d]) else set()
+    persisted -= {"format_id"}
+    for pfn in preds:
+        read = fields_read(fb, pfn, STYLE)
+        miss = sorted(persisted - read)
+        chk.touch(pfn)
+        chk.ob(r, "%s" % pfn.split("::", 2)[-1], not miss, where=fb.loc(pfn), detail="interning persists %s; the test reads %s%s" % (sorted(persisted), sorted(read), "; a style that only has %s is treated as empty and its cell is dropped" % miss if miss else ""))
+
+
 def run(chk, fb, tier):
     rule_coverage(chk, fb)
     rule_ambiguity(chk, fb)
     rule_wiring(chk, fb)
     rule_run_merge(chk, fb)
     rule_loop_emits(chk, fb)
+    rule_skip_test(chk, fb)
     chk.assume("MD5 digests of different key strings differ (collision-free for the purpose of interning)")
     chk.note("C05.e (reader/writer symmetry of the style structs) is decided by the symmetry engine under C04.b; not decided: equality of reloaded styles (value-level)")
